@@ -347,6 +347,7 @@ fn w8_target_search<R: Rng>(rng: &mut R, st: &mut Stats, iterations: u32) {
         Ok(s) => s,
         Err(_) => return,
     };
+    let decoy = packing::LineShape::from_radial("decoy", vec![0.2; sides]).ok().and_then(|d| build_packed(d, group, &pbig).ok());
     let mut basis = state.generate_basis();
     let layout = match libx::basis_layout(group) {
         Ok(l) => l,
@@ -435,9 +436,20 @@ fn w8_target_search<R: Rng>(rng: &mut R, st: &mut Stats, iterations: u32) {
                 // between the target's contact length and the next pair's
                 let len = m.1 - frac * m.0;
                 basis[layout[0]].set_value(len);
+                if probes % 2 == 0 {
+                    // what this thread evaluated just before must not matter: a much smaller
+                    // shape in the very same cell (same lengths and angle to the last bit) is
+                    // scored first
+                    if let Some(d) = decoy.as_ref() {
+                        let mut pd = q;
+                        pd.len = basis[layout[0]].get_value();
+                        let _ = libx::set_params_via_basis(d, group, &pd);
+                        let _ = d.score();
+                    }
+                }
                 let mut pp = q;
                 pp.len = basis[layout[0]].get_value();
-                let case = Case { group: group.to_string(), shape: spec.clone(), params: pp, workload: format!("W8-only-image-({},{})-overlaps", tn, tm) };
+                let case = Case { group: group.to_string(), shape: spec.clone(), params: pp, workload: format!("W8-only-image-({},{})-overlaps{}", tn, tm, if probes % 2 == 0 { " (scored right after a radius-0.2 polygon in the same cell on the same thread; a replay on a fresh thread does not repeat that)" } else { "" }) };
                 judge(&state, &case, st);
             }
         }
